@@ -972,6 +972,8 @@ def eval_under(model, v):
             return v.v
         r = model.eval(v.v, model_completion=True)
         return r.as_signed_long() if v.t in ('char', 'short', 'int', 'bint', 'long long', 'Py_ssize_t') else r.as_long()
+    if isinstance(v, float):
+        return repr(v)
     if isinstance(v, Fraction):
         return f'{v.numerator}/{v.denominator}'
     if isinstance(v, (list, tuple)):
